@@ -663,6 +663,10 @@ void ConfigObject::DumpModifiedAttributes(const std::function<void(const ConfigO
 					Dictionary::Ptr dict = current;
 					const String& key = tokens[tokens.size() - 1];
 
+					/* Likewise a key which does not exist any more: its dictionary was replaced as a whole later on. */
+					if (!dict->Contains(key))
+						continue;
+
 					modifiedValue = dict->Get(key);
 				} else
 					modifiedValue = currentValue;
